@@ -1,11 +1,11 @@
 (** C16 - timed-out or interrupted invocations are killed with their whole process tree.
-    Statements only.  The kill decision (Gen/GenFacts.kill_cond and the raise structure) is regenerated
+    Statements only.  The kill decision (Gen/GenFactsKill.kill_cond and the raise structure) is regenerated
     from rebench/subprocess_with_timeout.py on every run; the collection of the tree mirrors
     rebench/subprocess_kill.py; the classification of a timed-out invocation is Model/Retry.classify.
     Tied to the real code by harness/c16.py (real process trees, real limits and signals). *)
 From Coq Require Import List ZArith Bool Arith Lia.
 Import ListNotations.
-From RV Require Import Gen.GenFacts Gen.GenTermination Model.Retry Model.Kill Proofs.KillP.
+From RV Require Import Gen.GenFactsKill Gen.GenTermination Model.Retry Model.Kill Proofs.KillP.
 
 (** For every finite process forest (acyclic: some rank decreases from parent to child) the list that
     is killed is exactly the process and all its descendants in the snapshot. *)
